@@ -9,7 +9,7 @@
    Only statements; every proof is `exact <lemma>` (proofs live in the files imported below). *)
 From Coq Require Import List NArith Bool Arith String ZArith Floats.
 Import ListNotations.
-From MT Require Import Arith SweepModel Layout CliModel CliProofs GenCli GenCliIdx DispatchSpec CliDispatchProofs LayoutProofs SweepModel GraphModel InitModel CtrlModel MainModel Mt19937 SeededModel CliMain CliMainProofs FmtG.
+From MT Require Import Arith SweepModel Layout CliModel CliProofs GenCli GenCliIdx DispatchSpec CliDispatchProofs LayoutProofs SweepModel GraphModel InitModel CtrlModel MainModel Mt19937 SeededModel CliMain CliMainProofs FmtG FmtGProofs.
 
 (* the reader inverts every well-formed rendering *)
 Theorem C13_parse : forall (items : list item) (final_newline : bool),
@@ -178,4 +178,26 @@ Theorem C13_output_directory : forall (A : Arith float) (stoi : str -> option Z)
          reason_name argv = CliOk d fl -> parse_options stoi argv = Some c -> d = c_out c.
 Proof. exact cli_main_outdir. Qed.
 Print Assumptions C13_output_directory.
+
+(* "to 6 significant digits": for EVERY finite non-zero binary64 value m * 2^e the digits the model's writer prints (FmtG.fmt_g6 = operator<< with precision 6, *)
+(* compared with the real writers by K-WRITE(unit)) are the value correctly rounded to six significant decimal digits, ties to even, with the true decimal *)
+(* exponent (fmt_digits_spec: X0 is the decimal exponent, 100000 <= D <= 999999, D is a nearest integer to the value scaled by 10^(5-X)) *)
+Theorem C13_six_significant_digits : forall (m : positive) (e : Z),
+       (Z.pos m < 2 ^ 53)%Z ->
+       (-1074 <= e <= 971)%Z -> fmt_digits_spec (fst (b64_frac m e)) (snd (b64_frac m e)).
+Proof. exact fmt_digits_correct_b64. Qed.
+Print Assumptions C13_six_significant_digits.
+
+(* the rounding step alone, for any positive rational p/q and any exponent *)
+Theorem C13_rounding_half_unit : forall p q X : Z,
+       (0 < p)%Z ->
+       (0 < q)%Z ->
+       let
+       '(nn, dd) := scaled p q X in
+        let D := round6 p q X in
+        (0 < nn)%Z /\
+        (0 < dd)%Z /\
+        (2 * Z.abs (nn - D * dd) <= dd)%Z /\ ((2 * Z.abs (nn - D * dd))%Z = dd -> Z.even D = true).
+Proof. exact round6_half_unit. Qed.
+Print Assumptions C13_rounding_half_unit.
 
